@@ -7,12 +7,14 @@ import (
 	"encoding/json"
 	"fmt"
 	"testing"
+	"time"
 
 	"github.com/keep-network/keep-core/internal/testutils"
 	"github.com/keep-network/keep-core/pkg/net"
 	"github.com/keep-network/keep-core/pkg/verifshim/vctx"
 	"github.com/keep-network/keep-core/pkg/verifshim/vrep"
 	"github.com/keep-network/keep-core/pkg/verifshim/vsched"
+	"github.com/keep-network/keep-core/pkg/verifshim/vtime"
 )
 
 // c17Counting wraps the strategy under test and counts Tick invocations: T is the
@@ -101,6 +103,50 @@ func c17Body(sc c17Scenario, obs *c17Obs) func() {
 	}
 }
 
+// c17SharedBody: one Ticker serves several messages, as a channel's does. Message A's
+// context ends after the first tick, message C is sent after A's handler is gone; B lives
+// throughout. got[i] counts the retransmissions of message i.
+func c17SharedBody(strategy net.RetransmissionStrategy, got *[3]int, ticksSeen *[3]int) func() {
+	return func() {
+		*got, *ticksSeen = [3]int{}, [3]int{}
+		ticks := make(chan uint64)
+		ticker := NewTicker(ticks)
+		var ctxs [3]context.Context
+		var cancels [3]context.CancelFunc
+		// a virtual pause returns only when nothing else can run: every registration and
+		// every tick callback has finished before the next event
+		settle := func() { vtime.Sleep(time.Millisecond) }
+		send := func(i int) {
+			ctxs[i], cancels[i] = vctx.WithCancel(context.Background())
+			ScheduleRetransmissions(ctxs[i], &testutils.MockLogger{}, ticker, func() error {
+				got[i]++
+				return nil
+			}, WithStrategy(strategy))
+			settle()
+		}
+		tick := func(n uint64) {
+			vsched.Send(ticks, n)
+			settle()
+			for i := range ctxs {
+				if ctxs[i] != nil && ctxs[i].Err() == nil {
+					ticksSeen[i]++
+				}
+			}
+		}
+		send(0)
+		send(1)
+		tick(1)
+		cancels[0]()
+		tick(2) // the ticker drops A's handler here
+		send(2)
+		for n := uint64(3); n <= 8; n++ {
+			tick(n)
+		}
+		vsched.Close(ticks)
+		vsched.Block("quiesce", func() bool { return false })
+	}
+}
+
 func TestVerifC17(t *testing.T) {
 	r := vrep.Start(t, "C17", "sched")
 	defer r.Finish()
@@ -170,6 +216,38 @@ func TestVerifC17(t *testing.T) {
 			}
 		}
 		r.Eval(1)
+	}
+	// shared ticker: messages come and go, the others keep their schedule
+	if shard0, _ := r.Shard(); shard0 == 0 {
+		for _, kind := range []net.RetransmissionStrategy{net.StandardRetransmissionStrategy, net.BackoffRetransmissionStrategy} {
+			var got, seen [3]int
+			for bound := 0; bound <= 1; bound++ {
+				vsched.Explore(vsched.Options{Bound: bound, Stop: r.Expired}, c17SharedBody(kind, &got, &seen), func(s *vsched.Sched) {
+					r.Eval(1)
+					if p, stack := s.Failed(); p != nil {
+						r.ViolationMin("shared-ticker-panic", len(s.Choices()), fmt.Sprintf("shared ticker %v", kind), fmt.Sprintf("panic: %v\n%s", p, stack), nil)
+						return
+					}
+					for i, name := range []string{"A (context ended after tick 1)", "B (live throughout)", "C (sent after A's handler was dropped)"} {
+						want := seen[i]
+						if kind == net.BackoffRetransmissionStrategy {
+							want = c17Backoff(seen[i])
+						}
+						if i == 0 {
+							if got[0] != want {
+								r.ViolationMin("shared-ticker", i, fmt.Sprintf("shared ticker %v message %d", kind, i), fmt.Sprintf("message %s was retransmitted %d times", name, got[0]), nil)
+							}
+							continue
+						}
+						if got[i] != want {
+							r.ViolationMin("shared-ticker", i, fmt.Sprintf("shared ticker %v message %d", kind, i),
+								fmt.Sprintf("three messages on one ticker: message %s saw %d ticks while its context was live and was retransmitted %d times, the schedule demands %d [schedule %s]", name, seen[i], got[i], want, s.Trace()), nil)
+						}
+					}
+					r.Outcome(fmt.Sprintf("shared ticker %v: retransmissions %v", kind, got))
+				})
+			}
+		}
 	}
 	maxBound, ticks := 2, []int{3}
 	if r.Thorough() {
